@@ -27,7 +27,7 @@ def build_path(kind, n, pre, mid):
     if kind == "place":
         for i in mid:
             path.append(("EX_fill_idx", i, "all"))
-        path += [("D*",), ("X_apply", 0), ("D*",)]
+        path += [("D*",), ("X_apply", 0), ("D*",), ("ACCEPT*",), ("D*",)]
         return script, path, 0
     path += [("X_apply", 0), ("D*",)]
     if kind == "cancel":
@@ -55,7 +55,12 @@ def run_path(w, path):
     """executes a path with symbolic events resolved against the current world; retries spawn new tasks
     which are sent/applied in order until the request has finished."""
     for ev in path:
-        if ev[0] == "D*":
+        if ev[0] == "ACCEPT*":
+            mode = getattr(w, "accept_mode", None)
+            while mode and w.exchange.pending_async:
+                w.budgets["fill"] = 9
+                w.do(("EX_accept", "filled") if mode == "accept-filled" else ("EX_accept",))
+        elif ev[0] == "D*":
             while w.exchange.snap_queue:
                 w.do(("D",))
         elif ev[0] in ("EX_fill_idx", "EX_lapse_idx"):
@@ -104,7 +109,8 @@ def _one(args):
             fault_plan[call_idx + nerr] = {"per": list(per), "cancel_order": cancel_order}
     else:
         fault_plan[call_idx] = {"per": list(per), "cancel_order": cancel_order}
-    w = livex.LiveWorld(script, fault_plan=fault_plan, async_place=async_place, strategy_kw=dict(max_live_trade_count=5), budgets=dict(fill=9, lapse=9))
+    w = livex.LiveWorld(script, fault_plan=fault_plan, async_place=bool(async_place), strategy_kw=dict(max_live_trade_count=5), budgets=dict(fill=9, lapse=9))
+    w.accept_mode = async_place if isinstance(async_place, str) else None
     w.start()
     out = []
     counts = {"clause:C12.a": 0, "clause:C12.b": 0, "clause:C12.c": 0, "clause:C12.d": 0, "clause:C12.e": 0, "requests_finished": 0, "retries_seen": 0, "retries_exhausted": 0, "completed_meanwhile": 0, "failure_reports": 0, "timeouts": 0}
@@ -148,7 +154,8 @@ def _one(args):
             if s == "PENDING":
                 f = per[i] if i < len(per) else "SUCCESS"
                 exhausted = transport and transport[0] >= 4
-                ok = allow_pending and (f.startswith("TIMEOUT") or async_place) and not exhausted
+                # async: pending until the exchange has accepted the bet and its stream update has been processed
+                ok = allow_pending and (f.startswith("TIMEOUT") or (async_place and not (isinstance(async_place, str) and f == "SUCCESS"))) and not exhausted
                 if not ok:
                     out.append(core.v("C12.a", key("stranded PENDING"), "order %d left PENDING after the request finished (outcome %s)" % (i, f), case))
             if L.sname(o.trade.status) == "PENDING":
@@ -315,6 +322,8 @@ def jobs_for(tier):
     for n in (1, 2):
         for per in itertools.product(("SUCCESS", "FAILURE:ERROR_IN_ORDER", "TIMEOUT"), repeat=n):
             jobs.append(("place", n, per, (), (), None, None, True))
+            jobs.append(("place", n, per, (), (), None, None, "accept"))
+            jobs.append(("place", n, per, (), (), None, None, "accept-filled"))
     # cancel reports permuted / each one missing
     for n in (2, 3):
         for per in itertools.product(("SUCCESS", "FAILURE:BET_TAKEN_OR_LAPSED", "TIMEOUT"), repeat=n):
